@@ -68,3 +68,90 @@ def oarr(lst, sym):
             a[i] = v
         return a
     return np.array([float(v) for v in lst], dtype=float)
+
+
+# ------------------------------------------------------------------------------------------------
+# forward models with directly constructed state
+
+class SigmaContribution(object):
+    """factory for sigma-type contributions (real Contribution / CIAContribution code paths) whose
+    weighted cross-section array is given directly"""
+    @staticmethod
+    def make(name, sigma, kind='sigma', order=0):
+        from taurex.contributions import Contribution
+        from taurex.contributions.cia import CIAContribution
+
+        if kind == 'cia':
+            class _C(CIAContribution):
+                def prepare_each(self, model, wngrid):
+                    self._total_cia = 1
+                    self._nlayers = model.nLayers
+                    self._ngrid = wngrid.shape[0]
+                    self.sigma_xsec = self._given
+                    yield 'pair', self._given
+
+                def prepare(self, model, wngrid):
+                    for _ in self.prepare_each(model, wngrid):
+                        pass
+            c = _C(cia_pairs=['H2-He'])
+        else:
+            class _C(Contribution):
+                def prepare_each(self, model, wngrid):
+                    self._nlayers = model.nLayers
+                    self._ngrid = wngrid.shape[0]
+                    yield name, self._given
+
+                def prepare(self, model, wngrid):
+                    self._nlayers = model.nLayers
+                    self._ngrid = wngrid.shape[0]
+                    self.sigma_xsec = self._given
+            c = _C(name)
+        c._name = name
+        c._given = sigma
+        c._order = order
+        return c
+
+
+def state_model(klass, n, wngrid, Rp, Rs, z, dz, rho, T=None, P=None, Tstar=None, **kw):
+    """instance of a real forward-model class whose profile state is set directly (initialize_profiles is a
+    no-op, the state accessors read the given arrays); path_integral & co. are the real methods"""
+    from taurex.data import Planet
+    from taurex.data.stellar import BlackbodyStar
+    from taurex.data.profiles.pressure import SimplePressureProfile
+
+    class _State(klass):
+        def initialize_profiles(self):
+            pass
+
+        @property
+        def densityProfile(self):
+            return self._rho
+
+        @property
+        def nativeWavenumberGrid(self):
+            return self._wn
+
+        @property
+        def temperatureProfile(self):
+            return self._T
+
+        @property
+        def pressureProfile(self):
+            return self._P
+
+        @property
+        def nLayers(self):
+            return self._n
+
+    planet = Planet()
+    planet._radius = Rp
+    star = BlackbodyStar()
+    star._radius = Rs
+    if Tstar is not None:
+        star._temperature = Tstar
+    m = _State(planet=planet, star=star, pressure_profile=SimplePressureProfile(n), **kw)
+    m._n, m._rho, m._wn, m._T, m._P = n, rho, wngrid, T, P
+    m.altitude_profile = z
+    m.deltaz = dz
+    m.altitude_boundaries = None
+    return m
